@@ -10,5 +10,6 @@ Facts == Endpoints(N) /\ XMonotone(N) /\ InRange(N) /\ YMonotone(N) /\ MirrorCP 
 Emit == PrintT(<<"REPLAY", ToJson([kind |-> "easing", id |-> id, n |-> N, den |-> Den(N),
                                    bx |-> [k \in 1..(N + 1) |-> Bx(id, k - 1, N)],
                                    by |-> [k \in 1..(N + 1) |-> By(id, k - 1, N)],
+                                   cp |-> IF id = 10 THEN <<0, 0, 100, 100>> ELSE CP[id],
                                    back |-> id \in Back])>>)
 =============================================================================
